@@ -33,7 +33,15 @@ def split_lines(t):
     return out
 
 
+ENC = "utf-16"     # the position encoding of the session (LSP 3.17 `positionEncoding`; utf-16 unless the server announces another)
+
+
 def u16(c):
+    """width of one character in the units of the session's position encoding"""
+    if ENC == "utf-8":
+        return len(c.encode("utf-8"))
+    if ENC == "utf-32":
+        return 1
     return 2 if ord(c) >= 0x10000 else 1
 
 
@@ -128,12 +136,14 @@ def judge_cmd(before, chs):
     return " ".join(map(str, parts))
 
 
-def run_histories(exe, hists, tag):
+def run_histories(exe, hists, tag, capabilities=None, announced=None):
     """returns list of (hist index, step, before, changes, expected(client), observed) for every step"""
     s = lspclient.Server(exe)
     rows = []
     try:
-        s.initialize(diagnostics=False)
+        r0 = s.initialize(diagnostics=False, capabilities=capabilities)
+        if announced is not None:
+            announced.append(((r0 or {}).get("result") or {}).get("capabilities", {}).get("positionEncoding"))
         for hi, (t0, notes) in enumerate(hists):
             uri = "file:///%s_%d.spl" % (tag, hi)
             s.open(uri, t0)
@@ -330,6 +340,41 @@ def run_reported(exe, texts, tag):
     return out
 
 
+OFFERS = [["utf-16", "utf-8"], ["utf-8", "utf-16"], ["utf-8"], ["utf-32", "utf-16"], ["utf-16"], ["utf-32", "utf-8", "utf-16"], []]
+
+
+def encoding_stage(ctx, exe):
+    """LSP 3.17: the client may offer position encodings; whatever the server answers (nothing = utf-16) is the encoding of the
+    session, and the client counts its columns in it.  Runs sequentially (the client model's encoding is a module switch)."""
+    global ENC
+    bad, cov = [], []
+    for offer in OFFERS:
+        caps = {"general": {"positionEncodings": offer}} if offer else {"general": {}}
+        probe = []
+        run_histories(exe, [], "enc_probe", capabilities=caps, announced=probe)
+        enc = (probe[0] if probe else None) or "utf-16"
+        if enc not in ("utf-8", "utf-16", "utf-32") or (enc != "utf-16" and enc not in offer):
+            bad.append(dict(kind="position-encoding", property="C08", offer=offer, announced=enc,
+                            what="the server announces a position encoding the client did not offer"))
+            continue
+        ENC = enc
+        try:
+            hists = gen_histories(ctx, 300 if ctx.thorough() else 60)
+            rows = run_histories(exe, hists, "enc", capabilities=caps)
+            fails = [r for r in rows if r[5] != r[4]]
+            for hi, si, before, chs, after, obs in sorted(fails, key=lambda r: len(r[2]))[:1]:
+                again = run_histories(exe, [(before, [(chs, after)])], "encre", capabilities=caps)
+                if again and again[0][5] != after:
+                    bad.append(dict(kind="position-encoding", property="C08", offer=offer, announced=enc, text_before=before, changes=chs,
+                                    client_text=after, server_text=obs,
+                                    what="the client offered the position encodings %r, the server announced %s; with columns counted in that "
+                                         "encoding the server's text after didChange differs from the client's" % (offer, enc)))
+            cov.append(dict(offer=offer, announced=enc, steps=len(rows), deviations=len(fails)))
+        finally:
+            ENC = "utf-16"
+    return bad, cov
+
+
 def reported_stage(ctx, exe, bindir):
     n = 2400 if ctx.thorough() else 400
     texts = []
@@ -487,6 +532,10 @@ def run(ctx):
                     break
         rrcov["deviations"] = len(rbad)
         rrcov["confirmed"] = nrep
+    ebad, enc_cov = encoding_stage(ctx, exe)
+    for v in ebad[:2]:
+        ctx.violation(v)
+        confirmed.append(("encoding", v.get("offer")))
     # correspondence: the Coq model applied to the same (text before, changes) must give the observed text
     mism, kfail, nk = [], [], 0
     if judge:
@@ -537,6 +586,7 @@ def run(ctx):
         "multi_document_sessions": dict(sessions=len(sessions), texts_compared=len(srows), deviations=len(sfails), confirmed=len(sconfirmed),
                                         uri_pool=URI_POOL),
         "reported_ranges": rrcov,
+        "position_encoding_offers": enc_cov,
         "input_histogram": kinds,
         "traces_validated_against_impl": len(rows) if judge else 0,
         "kernel_judge_cases": nk,
@@ -573,6 +623,26 @@ def replay(ctx, path):
         for x in bad[:3]:
             print("after op %d: %s client %r server %r" % (x[1], x[2], x[3], x[4]))
         return 1 if bad else 0
+    if r.get("kind") == "position-encoding":
+        global ENC
+        exe, _ = common.build_server()
+        caps = {"general": {"positionEncodings": r["offer"]}} if r["offer"] else {"general": {}}
+        if "text_before" not in r:
+            probe = []
+            run_histories(exe, [], "enc_probe", capabilities=caps, announced=probe)
+            print("offer %r, announced %r" % (r["offer"], probe))
+            enc = (probe[0] if probe else None) or "utf-16"
+            return 0 if enc == "utf-16" or enc in r["offer"] else 1
+        ENC = r["announced"]
+        chs = [dict(range=(tuple(map(tuple, c["range"])) if c["range"] else None), text=c["text"]) for c in r["changes"]]
+        t = r["text_before"]
+        for ch in chs:
+            t = client_apply(t, ch)
+        rows = run_histories(exe, [(r["text_before"], [(chs, t)])], "replay", capabilities=caps)
+        ENC = "utf-16"
+        print("client:", repr(t))
+        print("server:", repr(rows[0][5]) if rows else None)
+        return 0 if rows and rows[0][5] == t else 1
     if r.get("kind") == "reported-range":
         exe, _ = common.build_server()
         bindir, _ = common.build_harness()
